@@ -52,6 +52,16 @@ theorem headOK_takeInput (env : List (Frame V)) (n : Nat) (h : headOK env) :
       exact h k (look_erase_some _ _ _ hk)
     · exact h
 
+theorem headByVal_takeInput (env : List (Frame V)) (n m : Nat)
+    (h : look (headByVal (takeInput env n).2) m ≠ none) : look (headByVal env) m ≠ none := by
+  cases env with
+  | nil => simpa [takeInput, headByVal] using h
+  | cons f ps =>
+    simp only [takeInput] at h
+    split at h
+    · exact look_erase_some _ _ _ h
+    · exact h
+
 /-- What `take_input` hands out is what `get_input` would have shown. -/
 theorem takeInput_value (env : List (Frame V)) (n : Nat) (h : headOK env)
     (hc : canTake env n = true) :
